@@ -52,18 +52,26 @@ def shareOf (r : String) (d : Denom) (den : Denom) (amt : Int) (bips : Nat) (rcp
 /-- the assessed custom fee in the fee denom (usd at `rate` nhash per usd mil) -/
 def assessAmt (rate : Nat) (den : Denom) (amt : Int) : Int := if den = "usd" then amt * (rate : Int) else amt
 
-/-- Documentation (x/msgfees/spec): a msg fee with a recipient and no basis points splits at the
-default 5,000; an assessed custom fee without basis points goes to the recipient in full (10,000);
-explicit basis points — every value from 0 to 10,000 — are used as given. What recipient `r` is
-owed in denom `d` by the transaction is the sum of its shares over the messages. -/
+/-- the share of `r` in the fee configured for a message's type: explicit basis points — every
+value from 0 to 10,000 — as given, the default 5,000 when none are given -/
+def cfgWant (r : String) (d : Denom) : Option PayCfg → Int
+  | some c => shareOf r d c.den c.amt (c.bips.getD 5000) c.rcpt
+  | none => 0
+
+/-- the share of `r` in an assessed custom fee: explicit basis points as given, the whole (10,000)
+when none are given -/
+def assessWant (rate : Nat) (r : String) (d : Denom) : Option (Denom × Int × Option Nat × String) → Int
+  | some (den, amt, bs, rcpt) => shareOf r d "nhash" (assessAmt rate den amt) (bs.getD 10000) rcpt
+  | none => 0
+
+/-- the documented shares of recipient `r` in denom `d` of ONE message -/
+def msgWant (rate : Nat) (cfg : List PayCfg) (r : String) (d : Denom) (m : PayMsg) : Int :=
+  cfgWant r d (cfg.find? (·.typ = m.typ)) + assessWant rate r d m.assess
+
+/-- Documentation (x/msgfees/spec): what recipient `r` is owed in denom `d` by the transaction is
+the sum of its shares over the messages. -/
 def payWant (rate : Nat) (cfg : List PayCfg) (msgs : List PayMsg) (r : String) (d : Denom) : Int :=
-  (msgs.map fun m =>
-    (match cfg.find? (·.typ = m.typ) with
-     | some c => shareOf r d c.den c.amt (c.bips.getD 5000) c.rcpt
-     | none => 0) +
-    (match m.assess with
-     | some (den, amt, bs, rcpt) => shareOf r d "nhash" (assessAmt rate den amt) (bs.getD 10000) rcpt
-     | none => 0)).sum
+  (msgs.map (msgWant rate cfg r d)).sum
 
 /-- the additional fees of the transaction in denom `d` (what the fee offered has to cover on top
 of the base fee) -/
